@@ -76,6 +76,7 @@ func runUnmarshalSeq(pkt bool, bufs [][]byte) Outcome {
 	var p rtp.Packet
 	var h rtp.Header
 	results := VList{}
+	afterReject := false
 	for step, in := range bufs {
 		g, buf := newGuarded(in)
 		var err error
@@ -97,12 +98,16 @@ func runUnmarshalSeq(pkt bool, bufs [][]byte) Outcome {
 			o.Fail = fmt.Sprintf("step %d: input modified", step)
 		}
 		if err != nil {
+			// the receiver is KEPT: whatever a rejected input left in it must not show in the next result
 			results = append(results, errV(err))
 			o.Tags = append(o.Tags, "rejected")
-			p, h = rtp.Packet{}, rtp.Header{}
+			afterReject = true
 			continue
 		}
 		o.Tags = append(o.Tags, "accepted")
+		if afterReject {
+			o.Tags = append(o.Tags, "accepted into a receiver that had rejected an input")
+		}
 		o.Nontrivial = true
 		// the header length the wire itself declares (RFC 3550 5.1 / 5.3.1), computed here
 		declared := 12 + 4*int(buf[0]&0x0F)
